@@ -152,6 +152,16 @@ def infer_policy(ctx, contract, variant):
             a, b, pol = {P_(fn, param(fn, ENV_TY), ".contract.address")}, {P_(fn, info, ".sender")}, "self-only"
         if guard_in_handler(ctx, trial, fn, a, b, pol) is not None and trial.status == "pass":
             return pol
+        # an entry point anyone may call is harmless when it has no effect a property speaks about: it builds no message
+        # and writes no storage item the rules know (an event emitter, a counter of a new item)
+        role_items = ctx.N.role_items()
+        harmless = True
+        for (b_, d_) in roles.sink_blocks(P, fn):
+            m_ = re.match(r"^store \w+ (\S+)$", d_)
+            if not (m_ and m_.group(1).startswith("I:") and m_.group(1) not in role_items):
+                harmless = False
+        if harmless:
+            return "public"
     except AnchorMissing:
         pass
     return None
@@ -336,10 +346,11 @@ def run(ctx):
         ex, edge, region, _, callbb = h
         cv = P.val_call(ex, ex.body, callbb)
         exi, exe = param(ex, INFO_TY), param(ex, ENV_TY)
-        if set(ctx.roots(cv[4][info])) != {P_(ex, exi)} or set(ctx.roots(cv[4][env])) != {P_(ex, exe)}:
+        gi_, wi_ = roles.passed_roots(ctx, cv, info, ex, exi)
+        ge_, we_ = roles.passed_roots(ctx, cv, env, ex, exe)
+        if gi_ != wi_ or ge_ != we_:
             inst.fail("%s:wiring" % inst.id, ex.path, common.span_of_block_term(ex, callbb),
-                      "dispatcher does not pass the transaction's env/info to the handler: info ⊢ %s env ⊢ %s" % (
-                          sorted(ctx.roots(cv[4][info])), sorted(ctx.roots(cv[4][env]))))
+                      "dispatcher does not pass the transaction's env/info to the handler: info ⊢ %s env ⊢ %s" % (sorted(gi_), sorted(ge_)))
 
     # the same wiring for the factory / pair privileged handlers (R1-R4, R6)
     rw = ctx.inst("C14.RW", "dispatchers pass the transaction's own MessageInfo to privileged handlers", floor=5)
@@ -351,8 +362,8 @@ def run(ctx):
         cv = P.val_call(ex, ex.body, callbb)
         info = param(fn, INFO_TY)
         exi = param(ex, INFO_TY)
-        rs = set(ctx.roots(cv[4][info]))
-        if rs != {P_(ex, exi)}:
+        rs, want_ = roles.passed_roots(ctx, cv, info, ex, exi)
+        if rs != want_:
             rw.fail("C14.RW:%s::%s" % key, ex.path, common.span_of_block_term(ex, callbb), "handler's info ⊢ %s" % sorted(rs))
         else:
             rw.site("%s::%s: info ⊢ execute#info" % key)
